@@ -216,8 +216,8 @@ func run(r *ev.Run) {
 		"expected stored fields come from mapping.MapDocument of the latest version (mapping is C16's subject)",
 		"Fields() is only required to be a superset of the fields of live documents",
 	}
-	nHist := r.Scale(24, 400)
-	r.MinDistinct = r.Scale(150, 2500)
+	nHist := r.Scale(60, 400)
+	r.MinDistinct = r.Scale(350, 2500)
 	dir := r.TempDir()
 	cfgs := corpus.AllConfigs()
 	var cfgNames []string
